@@ -1441,6 +1441,31 @@ func modeSched(a args) {
 			explore(a, st, g, false, a.n(3, 12), r, true)
 		})
 	}
+	// 2d. one pipeline included by two stages, the second includer held back by a stage of its own, dependants
+	// behind both includers; every outcome of the inner stages and of the includers, every completion order
+	for _, chain := range []bool{false, true} {
+		for _, xo := range []int{oOK, oFail, oFailAllow} {
+			for _, bo := range []int{oOK, oFailAllow} {
+				for _, ao := range []int{oOK, oFailAllow} {
+					chain, xo, bo, ao := chain, xo, bo, ao
+					add(func() {
+						inner := &graphSpec{Stages: []stageSpec{{Name: "x", Outcome: xo}, {Name: "y", Outcome: oOK}}}
+						if chain {
+							inner.Stages[1].Deps = []string{"x"}
+						}
+						g := &graphSpec{Stages: []stageSpec{
+							{Name: "a", Outcome: ao, Nested: inner},
+							{Name: "d", Outcome: oOK},
+							{Name: "b", Outcome: bo, Deps: []string{"d"}, SameAs: "a"},
+							{Name: "t", Outcome: oOK, Deps: []string{"b"}},
+							{Name: "u", Outcome: oOK, Deps: []string{"a"}},
+						}}
+						explore(a, st, g, true, 0, nil, false)
+					})
+				}
+			}
+		}
+	}
 	// 3. cancelled runs (C03): Cancel / condition error at every explorer state of small DAGs
 	ncancel := div(a.n(120, 2500))
 	for i := 0; i < ncancel; i++ {
